@@ -395,6 +395,12 @@ class Interp:
                 # leaving through break: state after the loop is the current one
                 fr.loops = max(fr.loops, saved_loops)
                 return
+            # vacuity guard: a path condition that became inconsistent inside the body (an assumed contract fact that
+            # contradicts the code) would make every obligation below hold trivially: recorded, reported by the runner
+            if self.c.solver.check() == z3.unsat:
+                self.c.vacuous = getattr(self.c, "vacuous", [])
+                self.c.vacuous.append("%s: path condition inconsistent at the end of the loop body" % P)
+                raise PathAbort("inconsistent path condition at the end of a loop body")
             for k_, f in enumerate(invariant("preserve")):
                 self.c.oblige("%s/invariant-preserved.%d" % (P, k_), f, "ensures")
             if variant_fn:
@@ -977,6 +983,10 @@ class Interp:
                 ln = z3.Select(cur.lens, idx)
                 rf = getattr(self, "row_facts", {}).get(fname)
                 owner = fr.this if fr.this is not None else getattr(self, "default_obj", None)
+                # row facts are part of the class invariant: they may not be assumed inside the methods that establish it
+                # (there the tables are temporarily out of step: counts are bumped before the rows grow)
+                if fr.fn.split("::")[-1] in ("SetNeighbors", "Build_mesh_kd", "AlgorithmSpecificInit", "Init"):
+                    rf = None
                 if rf is not None and owner is not None:
                     self.c.assume(rf(self, owner, ln, idx))
                 self.c.assume(ln >= 0)
